@@ -1,6 +1,6 @@
 SPEC = {
     "id": "C10",
-    "lean_props": ["TunnoxModel.Props.C10"],
+    "lean_props": ["TunnoxModel.Props.C10", "TunnoxModel.Props.C10Ties"],
     "harness": {
         "pkg": "c10",
         "shims": {},
